@@ -651,6 +651,29 @@ example : isBytesUnit hdrExample.unit = true := by decide
 example : specRanges 14 (hdrExample.items.map PSpec.spec) = some [(2, 6), (11, 14), (10, 14)] := by decide
 example : getRanges (some hdrExample.render) 14 = some [(2, 6), (11, 14), (10, 14)] := by decide
 
+/-- the example header meets the hypotheses of `getRanges_grammar` / `ranges_conform` -/
+example : hdrExample.WF := by
+  refine ⟨by decide, by decide, by decide, by decide, ?_⟩
+  intro p hp
+  simp only [hdrExample, List.mem_cons, List.not_mem_nil, or_false] at hp
+  rcases hp with rfl | rfl | rfl
+  · exact ⟨⟨by decide, by decide⟩, by decide, by decide, by decide, by decide⟩
+  · exact ⟨(by decide : IsNum "3".toList), by decide, by decide, by decide, by decide⟩
+  · exact ⟨(by decide : IsNum "10".toList), by decide, by decide, by decide, by decide⟩
+
+/-- the hypothesis of `invalid_ignored` is met, e.g., by a header without `=` -/
+example : ¬ ∃ hd : Header, hd.WF ∧ hd.render = "bytes".toList := by
+  rintro ⟨hd, _, h⟩
+  have : '=' ∈ hd.render := by simp [Header.render]
+  rw [h] at this
+  revert this
+  decide
+
+/-- pointwise reading of a slice: byte `i` of `content[a:b]` is byte `a+i` of the content -/
+theorem slice_getElem? (content : Bytes) (a b i : Nat) (h : i < b - a) :
+    (slice content a b)[i]? = content[a + i]? := by
+  simp [slice, h]
+
 example : getRanges (some "bytes=2-5,10-999".toList) 14 = some [(2, 6), (10, 14)] := by decide
 example : getRanges (some "bytes=-0".toList) 14 = some [] := by decide
 example : getRanges (some "chars=0-1".toList) 14 = none := by decide
